@@ -601,6 +601,68 @@ func init() {
 					judgeExpr(c, holes[i/len(failing)](failing[i%len(failing)]), nil, "failing-subexpression")
 				}})
 			// the same expression evaluated in several passes of a loop gives the same value every time
+			// long and deep expressions: chains of 16..1000 operands, nests of 64..300 parentheses, ternaries, prefix
+			// operators, member calls, literals with many elements
+			sizes := []int{15, 16, 17, 63, 64, 65, 127, 128, 129, 255, 256, 257, 1000}
+			const nBig = 9
+			secs = append(secs, core.Section{Name: "long-and-deep-expressions", Exhaustive: true, N: len(sizes) * nBig,
+				Run: func(c *core.Ctx, i int) {
+					n := sizes[i%len(sizes)]
+					ilit := func(v int64) model.Expr { return model.Lit{V: model.Int(v)} }
+					var e model.Expr
+					switch i / len(sizes) {
+					case 0: // a + b - c * d ... left to right, mixed precedence
+						e = ilit(1)
+						for k := 1; k < n; k++ {
+							e = model.Binary{Op: []string{"+", "-", "*", "+", "%", "/"}[k%6], L: e, R: ilit(int64(k%7 + 1))}
+						}
+					case 1: // the same chain nested to the right in parentheses
+						e = ilit(int64(n))
+						for k := 1; k < n && k < 300; k++ {
+							e = model.Binary{Op: []string{"-", "+", "*"}[k%3], L: ilit(int64(k%5 + 1)), R: model.Paren{X: e}}
+						}
+					case 2: // redundant parentheses around one operand
+						e = model.Binary{Op: "+", L: model.Var{Name: "a"}, R: ilit(1)}
+						for k := 0; k < n && k < 300; k++ {
+							e = model.Paren{X: e}
+						}
+						e = model.Binary{Op: "*", L: e, R: ilit(2)}
+					case 3: // ternaries nested in the else part
+						e = model.StrLit{S: "last"}
+						for k := n; k > 0 && n <= 300; k-- {
+							e = model.Ternary{C: model.Binary{Op: "==", L: model.Var{Name: "a"}, R: ilit(int64(k))}, A: model.StrLit{S: fmt.Sprint("is", k)}, B: e}
+						}
+					case 4: // prefix operators in a row
+						e = model.Var{Name: "a"}
+						for k := 0; k < n && k < 300; k++ {
+							e = model.Unary{Op: "-", X: e}
+						}
+					case 5: // string concatenation of n pieces
+						e = model.StrLit{S: "s0"}
+						for k := 1; k < n; k++ {
+							e = model.Binary{Op: "+", L: e, R: model.StrLit{S: fmt.Sprint("|", k)}}
+						}
+					case 6: // member calls in a row
+						e = model.Var{Name: "a"}
+						for k := 0; k < n; k++ {
+							e = model.Call{X: e, Name: []string{"abs", "float", "int"}[k%3]}
+						}
+					case 7: // an array literal of n elements, read at its ends
+						var el []model.Expr
+						for k := 0; k < n; k++ {
+							el = append(el, model.Binary{Op: "+", L: model.Var{Name: "a"}, R: ilit(int64(k))})
+						}
+						arr := model.ArrLit{Elems: el}
+						e = model.Binary{Op: "+", L: model.Index{X: arr, I: ilit(int64(n - 1))}, R: model.Binary{Op: "*", L: model.Index{X: arr, I: ilit(0)}, R: model.Call{X: arr, Name: "len"}}}
+					default: // comparisons and equality at the end of a long sum
+						e = ilit(0)
+						for k := 1; k < n; k++ {
+							e = model.Binary{Op: "+", L: e, R: ilit(1)}
+						}
+						e = model.Binary{Op: "==", L: model.Binary{Op: "<", L: e, R: ilit(int64(n))}, R: model.Binary{Op: ">=", L: ilit(int64(n - 1)), R: e}}
+					}
+					judgeExpr(c, e, map[string]model.Value{"a": model.Int(int64(n/2 + 1))}, "long")
+				}})
 			secs = append(secs, core.Section{Name: "random-trees-in-loops", N: nRandom / 6,
 				Run: func(c *core.Ctx, i int) {
 					g := newExprGen(c.Rng)
